@@ -9,6 +9,9 @@ import BufrModel.Lemmas.CoderSrc
 import BufrModel.Lemmas.CoderOpSrc
 import BufrModel.Lemmas.CoderElemSrc
 import BufrModel.Lemmas.CoderWalkSrc
+import BufrModel.Lemmas.CoderCompositeSrc
+import BufrModel.Lemmas.CoderCapstoneSrc
+import BufrModel.Lemmas.CoderLeafSrc
 import BufrModel.Props.C14Src
 set_option linter.unusedSimpArgs false
 namespace Bufr
@@ -179,12 +182,12 @@ example : ∃ (cb : PyGen.coder.Coder.process_element_descriptor.Callbacks Nat N
     non-negative id, every corresponding state, and corresponding callbacks. -/
 theorem C01_src_process_members_step {V B : Type} (φ : PyGen.coder.Descr → Elem)
     (A : PyData PyGen.coder.Descr V → B → StData → Prop)
-    (cb : PyGen.coder.Coder.process_members.Callbacks PyGen.coder.Descr V B) (P : Prims) (hcb : CbCorrM φ A cb P)
+    (cb : PyGen.coder.Coder.process_members.Callbacks PyGen.coder.Descr V B) (P : Prims) (hcb : CbCorrM (fun _ => True) φ A cb P)
     (x : PyGen.coder.Descr) (hx : 0 ≤ PyGen.coder.Descr.id x)
     (v : PyGen.coder.Coder.process_members.Locals PyGen.coder.Descr V B) (s : St)
     (h : AbsSt φ A v.state v.bit_operator s) :
     CorrL φ A (PyGen.coder.Coder.process_members.body cb v x) (walk1 P (descOf x) s) :=
-  body_corr φ A cb P hcb x hx v s h
+  body_corr (fun _ => True) φ A cb P hcb x trivial hx v s h
 
 /-- **The generated `process_members` is the model's `walkList`** on the list of members — ONE LEVEL: what the loop
     does with a fixed replication, a delayed replication or a sequence is the callback's business (`CbCorrM.fixed`,
@@ -198,20 +201,20 @@ theorem C01_src_process_members_step {V B : Type} (φ : PyGen.coder.Descr → El
     this theorem. -/
 theorem C01_src_process_members_partial {V B : Type} (φ : PyGen.coder.Descr → Elem)
     (A : PyData PyGen.coder.Descr V → B → StData → Prop)
-    (cb : PyGen.coder.Coder.process_members.Callbacks PyGen.coder.Descr V B) (P : Prims) (hcb : CbCorrM φ A cb P)
+    (cb : PyGen.coder.Coder.process_members.Callbacks PyGen.coder.Descr V B) (P : Prims) (hcb : CbCorrM (fun _ => True) φ A cb P)
     (ms : List PyGen.coder.Descr) (hms : ∀ m ∈ ms, 0 ≤ PyGen.coder.Descr.id m)
     (ps : PyGen.coder.CoderState.Self PyGen.coder.Descr V) (b : B) (s : St) (h : AbsSt φ A ps b s) :
     Corr φ A (PyGen.coder.Coder.process_members cb ps b ms) (walkList P (ms.map descOf) s) :=
-  members_core φ A cb P hcb ms hms ps b s h
+  members_core (fun _ => True) φ A cb P hcb ms (fun m hm => ⟨trivial, hms m hm⟩) ps b s h
 
 /-- `CbCorrM` is satisfiable — shown here only with the empty data relation (every field is then vacuous); the intended
     instance are the generated methods themselves, which is what the missing induction would establish. -/
-example : CbCorrM (V := Nat) (B := Nat) (fun _ => default) (fun _ _ _ => False)
+example : CbCorrM (V := Nat) (B := Nat) (fun _ => True) (fun _ => default) (fun _ _ _ => False)
     ⟨fun _ _ _ => .error .typeError, fun _ _ _ => .error .typeError, fun _ _ _ => .error .typeError,
      fun _ _ _ => .error .typeError, fun _ _ _ => .error .typeError, fun _ _ _ => .error .typeError,
      fun _ _ _ => .error .typeError, fun _ _ _ => .error .typeError⟩ failPrims :=
-  ⟨fun _ _ _ _ _ h => h.2.2.elim, fun _ _ _ _ h => h.2.2.elim, fun _ _ _ _ h => h.2.2.elim, fun _ _ _ _ h => h.2.2.elim,
-   fun _ _ _ _ h => h.2.2.elim, fun _ _ _ _ h => h.2.2.elim, fun _ _ _ _ h => h.2.2.elim, fun _ _ _ _ h => h.2.2.elim⟩
+  ⟨fun _ _ _ _ _ _ h => h.2.2.elim, fun _ _ _ _ _ h => h.2.2.elim, fun _ _ _ _ _ h => h.2.2.elim, fun _ _ _ _ _ h => h.2.2.elim,
+   fun _ _ _ _ _ h => h.2.2.elim, fun _ _ _ _ _ h => h.2.2.elim, fun _ _ _ _ _ h => h.2.2.elim, fun _ _ _ _ _ h => h.2.2.elim⟩
 
 /-- a concrete run of the generated loop: with a 221 count of 1 in force, an element of class 12 is skipped and the
     count runs down (no callback is called) -/
@@ -220,5 +223,128 @@ example (cb : PyGen.coder.Coder.process_members.Callbacks PyGen.coder.Descr Nat 
     (PyGen.coder.Coder.process_members cb { ps with data_not_present_count := 1 } 0
       [.ElementDescriptor 12101 "K".toList 2 0 16]).map (fun r => r.1.data_not_present_count) = .ok 0 := by
   rfl
+
+/-! ### the composite descriptors: `process_fixed_replication_descriptor`, `process_delayed_replication_descriptor`,
+  `process_sequence_descriptor`
+
+  Each is the generated method; the recursive call `self.process_members(state, bit_operator, descriptor.members)` is a
+  callback, and that it corresponds to `walkList P (members.map descOf)` is the hypothesis `hw` — what
+  `C01_src_process_members_partial` establishes for the member list one level down.  The right-hand sides are the cases of
+  the model's `walk1` (`Bufr.C08.wDispatch`, `walk1 = wPre (wDispatch)`). -/
+
+/-- fixed replication 1XXYYY: `n_repeats` (the property generated from `descriptors.py`: `id % 1000`) walks of the members
+    = `iterN (yOf id) (walkList P ms)` -/
+theorem C01_src_process_fixed_replication_descriptor {V B : Type} (φ : PyGen.coder.Descr → Elem)
+    (A : PyData PyGen.coder.Descr V → B → StData → Prop)
+    (cb : PyGen.coder.Coder.process_fixed_replication_descriptor.Callbacks PyGen.coder.Descr V B) (P : Prims)
+    (d : PyGen.coder.FixedReplicationDescriptor.Self) (id : Nat) (hid : d.id = id)
+    (hn : d.n_repeats = FixedReplicationDescriptor.n_repeats ⟨id⟩)
+    (hw : ∀ ps b s, AbsSt φ A ps b s → Corr φ A (cb.process_members ps b d.members) (walkList P (d.members.map descOf) s))
+    (ps : PyGen.coder.CoderState.Self PyGen.coder.Descr V) (b : B) (s : St) (h : AbsSt φ A ps b s) :
+    Corr φ A (PyGen.coder.Coder.process_fixed_replication_descriptor cb ps b d)
+      (Bufr.C08.wDispatch P (.fixedRep id (d.members.map descOf)) s) :=
+  fixed_core φ A cb P d (yOf id) (by rw [hn, C14_src_fixed_replication_n_repeats]) hw ps b s h
+
+/-- delayed replication: `NotImplementedError` for the ids 031011 / 031012 is excluded by hypothesis (the template builder
+    gives a replication descriptor a 1XXYYY id); a factor that is not an element descriptor object is refused with
+    `UnknownDescriptor` (= the model's `unknownDescr`); otherwise the factor is processed as an element, the callback
+    `get_value_for_delayed_replication_factor` returns the count the model computes (`P.factorValue >>= factorCount`, or both
+    fail alike), and the members are walked that many times. -/
+theorem C01_src_process_delayed_replication_descriptor {V B : Type} (φ : PyGen.coder.Descr → Elem)
+    (A : PyData PyGen.coder.Descr V → B → StData → Prop)
+    (cb : PyGen.coder.Coder.process_delayed_replication_descriptor.Callbacks PyGen.coder.Descr V B) (P : Prims)
+    (d : PyGen.coder.DelayedReplicationDescriptor.Self) (id : Nat) (hid : d.id ≠ 31011 ∧ d.id ≠ 31012)
+    (hel : ∀ ps b s, AbsSt φ A ps b s → PyGen.coder.Descr.tag d.factor = .ElementDescriptor →
+      Corr φ A (cb.process_element_descriptor ps b d.factor) (Bufr.C08.wDispatch P (descOf d.factor) s))
+    (hval : ∀ ps b s, AbsSt φ A ps b s →
+      ValCorr (cb.get_value_for_delayed_replication_factor ps) (P.factorValue s >>= factorCount))
+    (hw : ∀ ps b s, AbsSt φ A ps b s → Corr φ A (cb.process_members ps b d.members) (walkList P (d.members.map descOf) s))
+    (ps : PyGen.coder.CoderState.Self PyGen.coder.Descr V) (b : B) (s : St) (h : AbsSt φ A ps b s) :
+    Corr φ A (PyGen.coder.Coder.process_delayed_replication_descriptor cb ps b d)
+      (Bufr.C08.wDispatch P (.delayedRep id (descOf d.factor) (d.members.map descOf)) s) :=
+  delayed_core φ A cb P d id hid hel hval hw ps b s h
+
+/-- a sequence descriptor: its members are walked -/
+theorem C01_src_process_sequence_descriptor {V B : Type} (φ : PyGen.coder.Descr → Elem)
+    (A : PyData PyGen.coder.Descr V → B → StData → Prop)
+    (cb : PyGen.coder.Coder.process_sequence_descriptor.Callbacks PyGen.coder.Descr V B) (P : Prims)
+    (d : PyGen.coder.SequenceDescriptor.Self) (id : Nat)
+    (hw : ∀ ps b s, AbsSt φ A ps b s → Corr φ A (cb.process_members ps b d.members) (walkList P (d.members.map descOf) s))
+    (ps : PyGen.coder.CoderState.Self PyGen.coder.Descr V) (b : B) (s : St) (h : AbsSt φ A ps b s) :
+    Corr φ A (PyGen.coder.Coder.process_sequence_descriptor cb ps b d)
+      (Bufr.C08.wDispatch P (.seq id (d.members.map descOf)) s) :=
+  sequence_core φ A cb P d hw ps b s h
+
+/-- the hypotheses are satisfiable: an empty member list, a `process_members` that returns at once -/
+example : ∃ (cb : PyGen.coder.Coder.process_sequence_descriptor.Callbacks PyGen.coder.Descr Nat Nat)
+    (d : PyGen.coder.SequenceDescriptor.Self),
+    ∀ ps b s, AbsSt (fun _ => default) (fun _ _ _ => True) ps b s →
+      Corr (fun _ => default) (fun _ _ _ => True) (cb.process_members ps b d.members) (walkList failPrims (d.members.map descOf) s) :=
+  ⟨⟨fun ps b _ => .ok (ps, b)⟩, ⟨301001, []⟩, fun _ _ _ h => h⟩
+
+/-! ### the capstone: the whole template walk
+
+  `pyWalk L fuel` (`Lemmas/CoderCapstoneSrc.lean`) is the generated `process_members` whose callbacks for the composite
+  descriptors are the generated `process_fixed_replication_descriptor`, `process_delayed_replication_descriptor`,
+  `process_sequence_descriptor`, whose callback `process_members` is `pyWalk L` with one unit of fuel less: the four
+  recursive methods of the walk calling each other as `self.process_x(...)` does.  That wiring is written by hand (the
+  translator generates one `Callbacks` structure per method; every method BODY is the generated one).  `L` holds the
+  methods that do not recurse; `LeafCorr` asks of them what `C01_src_process_element_descriptor`,
+  `C01_src_process_operator_descriptor`, `C07_src_process_bitmap_definition` establish for the generated ones, and of
+  `process_define_new_refval`, `process_skipped_local_descriptor`, `get_value_for_delayed_replication_factor` that they
+  correspond to `P.newRefval` (`lib` error for a string element), `P.codeflag (.skipped …)` with the register reset, and
+  `P.factorValue >>= factorCount`. -/
+
+/-- **The regenerated template walk is the model's `walkList`**: for every list of descriptor trees `ms` (members, factors
+    and members of members … of any depth) with non-negative ids and no replication descriptor of id 031011 / 031012
+    (`GoodDs`), every fuel above the nesting depth of `ms`, every Python state / bit operator / model state that
+    correspond, and leaf methods that correspond, the regenerated walk and `walkList P (ms.map descOf)` return
+    corresponding states or fail with the same error class.  In particular the fuel suffices (no `outOfFuel`): the
+    recursion of `process_members` through the composite descriptors terminates. -/
+theorem C01_src_process_members {V B : Type} (G : PyGen.coder.Descr → Prop) (φ : PyGen.coder.Descr → Elem)
+    (A : PyData PyGen.coder.Descr V → B → StData → Prop) (L : LeafCb V B) (P : Prims) (hL : LeafCorr G φ A L P)
+    (fuel : Nat) (ms : List PyGen.coder.Descr) (hg : GoodDs G ms) (hd : depthsOf ms < fuel)
+    (ps : PyGen.coder.CoderState.Self PyGen.coder.Descr V) (b : B) (s : St) (h : AbsSt φ A ps b s) :
+    Corr φ A (pyWalk L fuel ps b ms) (walkList P (ms.map descOf) s) :=
+  walk_core G φ A L P hL fuel ms hg hd ps b s h
+
+/-- **… with the generated element step, operator dispatch and bitmap-definition machine plugged in** (`genLeaf`,
+    `Lemmas/CoderLeafSrc.lean`): the walk in which `process_members`, the three composite methods,
+    `process_element_descriptor` (with the generated `add_bitmap_link`), `process_operator_descriptor` (with the generated
+    `CoderState` methods) and `process_bitmap_definition` are ALL the functions regenerated from `coder.py` equals the model's
+    `walkList`, for every descriptor tree whose nodes have non-negative ids and widths (`LeafG`), given only that the
+    ABSTRACT methods of `Coder` (`process_numeric`, `process_string`, `process_codeflag`, `process_constant`,
+    `process_numeric_of_new_refval`, `define_bitmap`, `get_value_for_delayed_replication_factor`) and the four not yet
+    translated ones (`process_associated_field`, `process_marker_operator_descriptor`, `process_define_new_refval`,
+    `process_skipped_local_descriptor`) correspond to the primitives / steps of the model. -/
+theorem C01_src_process_members_generated {V B : Type} (φ : PyGen.coder.Descr → Elem)
+    (A : PyData PyGen.coder.Descr V → B → StData → Prop) (hA : LinkClosed A) (P : Prims)
+    (cbE : PyGen.coder.Coder.process_element_descriptor.Callbacks PyGen.coder.Descr V B)
+    (hE : ∀ d, CbCorrE φ A cbE P (.plain (elemOf d)) d)
+    (cbO : PyGen.coder.Coder.process_operator_descriptor.Callbacks PyGen.coder.Descr V B) (hO : CbCorr φ A cbO P)
+    (cbB : PyGen.coder.Coder.process_bitmap_definition.Callbacks PyGen.coder.Descr V B) (hB : DefineCorr φ A cbB P)
+    (defRef skip : PyStep V B) (getv : PyGen.coder.CoderState.Self PyGen.coder.Descr V → Except Py.Exc Int)
+    (hdef : ∀ ps b s m e, AbsSt φ A ps b s → descOf m = .elem e →
+      Corr φ A (defRef ps b m) (if e.kind = .string then .error .lib else P.newRefval e s.regs.nbitsNewRefval s))
+    (hskip : ∀ ps b s m, AbsSt φ A ps b s →
+      Corr φ A (skip ps b m)
+        (do let s' ← P.codeflag (.skipped (descOf m).id s.regs.nbitsSkipped) s.regs.nbitsSkipped s
+            pure (s'.setRegs fun r => { r with nbitsSkipped := 0 })))
+    (hval : ∀ ps b s, AbsSt φ A ps b s → ValCorr (getv ps) (P.factorValue s >>= factorCount))
+    (fuel : Nat) (ms : List PyGen.coder.Descr) (hg : GoodDs LeafG ms) (hd : depthsOf ms < fuel)
+    (ps : PyGen.coder.CoderState.Self PyGen.coder.Descr V) (b : B) (s : St) (h : AbsSt φ A ps b s) :
+    Corr φ A (pyWalk (genLeaf cbE cbO cbB defRef skip getv) fuel ps b ms) (walkList P (ms.map descOf) s) :=
+  walk_core LeafG φ A _ P (genLeaf_corr φ A hA P cbE hE cbO hO cbB hB defRef skip getv hdef hskip hval) fuel ms hg hd ps b s h
+
+/-- the hypotheses on the tree are satisfiable by a nested template: a sequence holding a fixed replication of an
+    element and an operator, a delayed replication with its factor -/
+example : GoodDs LeafG [.SequenceDescriptor 301001 [.FixedReplicationDescriptor 101002 [.ElementDescriptor 12101 "K".toList 2 0 16],
+      .OperatorDescriptor 201130, .DelayedReplicationDescriptor 101000 [.ElementDescriptor 1001 "NUMERIC".toList 0 0 7]
+        (.ElementDescriptor 31001 "NUMERIC".toList 0 0 8)]] ∧
+    depthsOf [.SequenceDescriptor 301001 [.FixedReplicationDescriptor 101002 [.ElementDescriptor 12101 "K".toList 2 0 16],
+      .OperatorDescriptor 201130, .DelayedReplicationDescriptor 101000 [.ElementDescriptor 1001 "NUMERIC".toList 0 0 7]
+        (.ElementDescriptor 31001 "NUMERIC".toList 0 0 8)]] < 3 := by
+  refine ⟨?_, by decide⟩
+  simp [GoodDs, GoodD, LeafG, PyGen.coder.Descr.id]
 
 end Bufr
